@@ -462,6 +462,26 @@ func TestVerif_C16_JSON(t *testing.T) {
 				res.violate("definition %s: input %q lexes to%s before and%s after a JSON round trip", d, in, a, b)
 			}
 		}
+		// (3) the rule set the definition hands out
+		rdata, err := json.Marshal(def.Rules())
+		var rrules Rules
+		if err == nil {
+			err = json.Unmarshal(rdata, &rrules)
+		}
+		if err != nil {
+			res.violate("definition %s: Rules() does not survive JSON: %v", d, err)
+		} else if def3, err, p := newNoPanic(rrules); err != nil || p != nil {
+			res.violate("New(Unmarshal(Marshal(def.Rules()))) of %s failed: %v %v", d, err, p)
+		} else {
+			if !reflect.DeepEqual(def.Symbols(), def3.Symbols()) {
+				res.violate("definition %s: symbols changed by a JSON round trip of Rules(): %v vs %v", d, def.Symbols(), def3.Symbols())
+			}
+			for _, in := range inputs {
+				if a, b := lexAll(def, in), lexAll(def3, in); a != b {
+					res.violate("definition %s: input %q lexes to%s before and%s after a JSON round trip of Rules()", d, in, a, b)
+				}
+			}
+		}
 		if strings.Contains(d, "push") || strings.Contains(d, "pop") || strings.Contains(d, "include") || strings.Contains(d, "return") {
 			res.Distinct++
 		}
